@@ -21,7 +21,7 @@ PY = sys.executable
 ROOT = os.path.dirname(os.path.dirname(os.path.dirname(os.path.abspath(__file__))))
 
 
-IDLE_S = float(os.environ.get("VF_IDLE_S", "40"))
+IDLE_S = float(os.environ.get("VF_IDLE_S", "25"))
 
 
 def _tree_cpu(pid):
